@@ -324,7 +324,11 @@ func (w *world) runCase(c tcase, withHSM bool) (res *caseResult) {
 	hexDirect := txHex(tx)
 	raw := rawTpl
 	n := 0
-	for _, pw := range pws {
+	jsonPws := pws
+	if len(c.List) >= 3 && c.Place != placeConfirmed {
+		jsonPws = nil // the JSON flow is replayed for every case of <= 2 actions and for the confirmed placement of longer lists
+	}
+	for _, pw := range jsonPws {
 		t, err := cloneTemplate(raw)
 		if err != nil {
 			fail("template-json-unreadable", err.Error(), nil)
